@@ -12,8 +12,12 @@ from facts import callee
 from report import RuleResult
 
 
-def _base_locals(b, defs, op, depth=0, out=None):
-    """locals a (mutable) reference / iterator operand was derived from"""
+OWNING = {"to_owned", "clone", "to_vec", "mapv", "map", "into_owned", "collect", "from", "into"}
+
+
+def _base_locals(b, defs, op, depth=0, out=None, views_only=False):
+    """locals a (mutable) reference / iterator operand was derived from.  With `views_only` a call that produces an owned
+    copy (`pd.to_owned()`) ends the chain: modifying the copy in place does not modify what it was copied from."""
     out = out if out is not None else set()
     if op.get("k") not in ("copy", "move") or depth > 10:
         return out
@@ -23,14 +27,16 @@ def _base_locals(b, defs, op, depth=0, out=None):
     out.add(l)
     for d in defs.of(l):
         if d[0] == "call":
+            if views_only and str(callee(d[2])[2]) in OWNING:
+                continue
             for a in d[2]["args"][:1]:
-                _base_locals(b, defs, a, depth + 1, out)
+                _base_locals(b, defs, a, depth + 1, out, views_only)
         else:
             rv = d[4]
             if rv["k"] in ("use", "cast"):
-                _base_locals(b, defs, rv["op"], depth + 1, out)
+                _base_locals(b, defs, rv["op"], depth + 1, out, views_only)
             elif rv["k"] == "ref":
-                _base_locals(b, defs, {"k": "copy", "place": rv["place"]}, depth + 1, out)
+                _base_locals(b, defs, {"k": "copy", "place": rv["place"]}, depth + 1, out, views_only)
     return out
 
 
@@ -47,11 +53,14 @@ def run(F):
         for bi, t in b.calls():
             nm = callee(t)[2]
             if nm == "sub_assign" and t["args"]:
-                for x in _base_locals(b, defs, t["args"][0]):
+                for x in _base_locals(b, defs, t["args"][0], views_only=True):
                     if b.lname(x):
                         modified.setdefault(x, set()).add(bi)
             if nm == "push" and len(t["args"]) == 2:
-                pushes.append((_base_locals(b, defs, t["args"][0]), t["args"][1]))
+                # the vector pushed to is identified by refs / copies only (its allocation `Vec::with_capacity(x.len())` does not
+                # make it "derived from" x)
+                from cfg import roots
+                pushes.append((roots(b, defs, t["args"][0]["place"]["l"]) if t["args"][0].get("k") in ("copy", "move") else set(), t["args"][1]))
         for bi, t in b.calls():
             if not t["args"]:
                 continue
